@@ -216,9 +216,15 @@ def c02(seed, tier):
         add(nm, t, [lambda p: set_coll(p, True, 0), lambda p: set_coll(p, False, 0), lambda p: set_coll(p, False, 2)])
     for n in (0, 1, 3):
         add("F_arr%d" % n, array(n), [lambda p: {"path": p, "vk": "arr"}])
+    # arrays of every element kind, all-zero: a fixed-size array of non-zero length is accepted whatever it holds (digests,
+    # UUIDs and other byte arrays included), a zero-length one is the zero value
+    for k, (n, el) in enumerate(((16, "byte"), (32, "uint8"), (4, "uint8"), (8, "byte"), (0, "byte"), (2, "string"), (3, "bool"), (2, "float64"), (1, "*int"), (2, "[2]int"),
+                                 (2, "[0]byte"), (1, "rune"), (2, "complex128"), (1, "error"), (2, "struct{ A int }"), (1, "[]byte"), (2, "map[string]int"))):
+        add("F_arrx%d" % k, array(n, el), [lambda p: {"path": p, "vk": "arr"}])
     # named types over each kind
     for nm, under in (("NInt", basic("int16")), ("NStr", basic("string")), ("NBool", basic("bool")), ("NF", basic("float64")),
                       ("NSlice", SLICE), ("NMap", MAP), ("NChan", CHAN), ("NArr", array(2)), ("NArr0", array(0)),
+                      ("UUID", array(16, "byte")), ("Digest", array(32, "byte")), ("Sum4", array(4, "uint8")), ("Empty", array(0, "uint8")),
                       ("NPtr", POINTER), ("NFunc", FUNC), ("NIface", IFACE), ("NC", basic("complex128"))):
         a, t = named(nm, under)
         aux.append(a)
@@ -242,6 +248,9 @@ def c02(seed, tier):
     a, t = alias("ASlice", SLICE)
     aux.append(a)
     add("F_ASlice", t, [lambda p: set_coll(p, True, 0), lambda p: set_coll(p, False, 0), lambda p: set_coll(p, False, 1)])
+    a, t = alias("ASum", array(4, "uint8"))
+    aux.append(a)
+    add("F_ASum", t, [lambda p: {"path": p, "vk": "arr"}])
     a, t = alias("AStr", basic("string"))
     aux.append(a)
     add("F_AStr", t, [lambda p: set_str(p, b""), lambda p: set_str(p, b"q")])
